@@ -122,9 +122,7 @@ end
 
 /-! ### `process_dir`, `do_find` -/
 
-def walkOpts (c : Config) : Opts :=
-  ({ contentsFirst := c.depthFirst, minDepth := c.minDepth, maxDepth := c.maxDepth,
-     followLinks := c.follow == .always, followRoot := c.follow != .never } : Opts).clamped
+def refCfg (c : Config) : RefCfg := ⟨c.depthFirst, c.minDepth, c.maxDepth, c.follow⟩
 
 structure RunRes where
   out : Bytes
@@ -139,15 +137,7 @@ def processDir (c : Config) (m : M Prim) (start : Bytes) (root : Option (Node At
   | none => ⟨out, 1, false, 1⟩
   | some n =>
     let n := if c.sorted then sortNode n else n
-    let ev : Visit Attr → Bytes → EvalOut × Bytes := fun v o =>
-      -- entries outside [mindepth, maxdepth] are not evaluated (walkdir clamps an empty range and
-      -- reports dangling links regardless of depth)
-      if !(decide (c.minDepth ≤ v.ent.depth) && decide (v.ent.depth ≤ c.maxDepth)) then (⟨false, false, 0⟩, o)
-      else
-        let r := evalEntry m start v o
-        -- a prune mark is acted upon only in pre-order
-        (if c.depthFirst then { r.1 with prune := false } else r.1, r.2)
-    let r := loop (walkOpts c) c.follow ev (MState.init n) out 0 0
+    let r := processRoot (refCfg c) (evalEntry m start) n out
     ⟨r.st, r.ret, r.quit, r.diags⟩
 
 def doFind (c : Config) (m : M Prim) : List (Bytes × Option (Node Attr)) → Bytes → Nat → Nat → RunRes
